@@ -779,6 +779,20 @@ impl OverlayInode {
         }
     }
 
+    // Does any lower layer backing this directory hold an entry called `name`?
+    pub fn lower_has_child(&self, ctx: &Context, name: &str) -> Result<bool> {
+        for ri in self.real_inodes.lock().unwrap().iter() {
+            if ri.in_upper_layer || ri.whiteout {
+                continue;
+            }
+            if let Some(e) = ri.lookup_child_ignore_enoent(ctx, name)? {
+                ri.layer.forget(ctx, e.inode, 1);
+                return Ok(true);
+            }
+        }
+        Ok(false)
+    }
+
     pub fn child(&self, name: &str) -> Option<Arc<OverlayInode>> {
         self.childrens.lock().unwrap().get(name).cloned()
     }
@@ -1892,7 +1906,11 @@ impl OverlayFs {
         let pnode = self.copy_node_up(ctx, Arc::clone(&pnode))?;
 
         if node.upper_layer_only() {
-            need_whiteout = false;
+            // The node has no lower backing inode of its own, but a lower layer of the
+            // parent may still hold an entry with this name that the node was shadowing
+            // (upper file over lower file, copied-up file, opaque or re-created directory).
+            // Without a whiteout that entry reappears after the next mount.
+            need_whiteout = pnode.lower_has_child(ctx, sname.as_str())?;
         }
 
         let mut path_removed = None;
